@@ -63,3 +63,9 @@ def same_helper(ctx):
            "`/` and joinpath() do not reach the same helper with encoded=False by default", sample="both -> _make_child, encoded default False")
     from ..rules import flow as _flow
     _flow.f_sink(ctx)       # the path every operation computed is the path the result stores
+    # the path accessors the algebra is stated over read the stored path: a constructor that pre-fills one of them stores what the
+    # accessor itself would compute (a pre-filled raw_path of '/' next to raw_parts ('',) breaks "raw_parts re-compose to raw_path")
+    from ..rules.pickle import sh4
+    from ..shape import Shapes
+    sh4(ctx, Shapes(ctx.model), only_keys=("raw_path", "path", "path_safe", "raw_parts", "parts", "raw_name", "name", "raw_suffix", "suffix",
+                                           "raw_suffixes", "suffixes"))
